@@ -23,7 +23,7 @@ ASSUMPTIONS = ['termination is judged by a generous per-case watchdog (20 s, re-
                'reported only when it repeats',
                'message formats are the library\'s own stable formats; messages without a quoted text + L:C are not checked']
 
-QUOTED_AT = re.compile(r"""('(?:[^'\\]|\\.)*'|"(?:[^"\\]|\\.)*") at (\d+):(\d+)""", re.S)
+QUOTED_AT = re.compile(r"""('(?:[^'\\]|\\.)*'|"(?:[^"\\]|\\.)*") at (-?\d+):(-?\d+)""", re.S)
 
 
 class Timeout(Exception):
@@ -78,17 +78,17 @@ def check_message(text, msg):
     """-> None or description of the mismatch between the message's first quoted text+position
     and the input"""
     if msg.startswith('Error parsing regular expression \''):
-        m = re.match(r"Error parsing regular expression '(.*)' at (\d+):(\d+)\Z", msg, re.S)
+        m = re.match(r"Error parsing regular expression '(.*)' at (-?\d+):(-?\d+)\Z", msg, re.S)
         if not m:
             return None
         quoted, line, col = m.group(1), int(m.group(2)), int(m.group(3))
     elif msg.startswith('Invalid ') and 'escape sequence' in msg:
-        m = re.match(r"Invalid \w+ escape sequence '(.*)' at (\d+):(\d+)\Z", msg, re.S)
+        m = re.match(r"Invalid \w+ escape sequence '(.*)' at (-?\d+):(-?\d+)\Z", msg, re.S)
         if not m:
             return None
         quoted, line, col = m.group(1), int(m.group(2)), int(m.group(3))
     elif msg.startswith('Mismatched \''):
-        m = re.match(r"Mismatched '(.*)' at (\d+):(\d+)\Z", msg, re.S)
+        m = re.match(r"Mismatched '(.*)' at (-?\d+):(-?\d+)\Z", msg, re.S)
         if not m:
             return None
         quoted, line, col = m.group(1), int(m.group(2)), int(m.group(3))
